@@ -25,7 +25,9 @@ NF == Len(Flavs)
 
 \* fabricated messages the puppet can insert (besides copies of its own earlier messages)
 \* APP0 = an application-data record of length zero
-Fab == {"HREQ", "SHD", "NST", "CCS", "APP", "KU", "CR", "APP0"}
+\* NOCERT = the warning alert no_certificate(41): SSLv3's way of saying "I have no certificate" (RFC 6101, 5.4.2);
+\*          from TLS 1.0 on an empty Certificate message says that and the alert has no place in a handshake
+Fab == {"HREQ", "SHD", "NST", "CCS", "APP", "KU", "CR", "APP0", "NOCERT"}
 
 VARIABLES fi,      \* flavour index
           script,  \* sequence of edits applied so far: <<op, k, t>>
@@ -66,7 +68,7 @@ Admit(q) ==
     [] q = "C13_FIN"   -> {"FIN"}
     [] q = "S_CH"      -> {"CH"}
     [] q = "S_CH2"     -> {"CH"}
-    [] q = "S_CERT"    -> {"CERT", "CERT0"}
+    [] q = "S_CERT"    -> {"CERT", "CERT0"} \cup (IF F.ver = 0 THEN {"NOCERT"} ELSE {})
     [] q = "S_CKE"     -> {"CKE"}
     [] q = "S_CV"      -> {"CV"}
     [] q = "S13_CERT"  -> {"CERT", "CERT0", "CCERT", "CCERT0"}
@@ -144,6 +146,8 @@ Edits(h, fl) ==
   \cup {<<"dup", k, 0>> : k \in 1..Len(h)}
   \cup {<<"swap", k, 0>> : k \in {j \in 1..(Len(h) - 1) : fl[j] = fl[j + 1]}}
   \cup {<<"ins", k, t>> : k \in 2..(Len(h) + 1), t \in Fab}
+  \* "rep" = the peer sends a fabricated message of type t IN PLACE of message k
+  \cup {<<"rep", k, t>> : k \in 2..Len(h), t \in Fab}
   \cup {e \in {<<"cpy", k, j>> : k \in 3..(Len(h) + 1), j \in 1..(Len(h) - 1)} : e[3] < e[2] - 1}
   \* TLS 1.3 (RFC 8446 sec. 5.1): a handshake message immediately before a key change must end its record;
   \* "glue" = message k is followed in the same record by the first bytes of a further handshake message
@@ -153,9 +157,9 @@ ApplyTo(h, e, x) ==    \* x = element to insert for "ins"/"cpy"
     [] e[1] = "dup"  -> SubSeq(h, 1, e[2]) \o <<h[e[2]]>> \o SubSeq(h, e[2] + 1, Len(h))
     [] e[1] = "swap" -> SubSeq(h, 1, e[2] - 1) \o <<h[e[2] + 1], h[e[2]]>> \o SubSeq(h, e[2] + 2, Len(h))
     [] e[1] \in {"ins", "cpy"} -> SubSeq(h, 1, e[2] - 1) \o <<x>> \o SubSeq(h, e[2], Len(h))
-    [] e[1] = "glue" -> SubSeq(h, 1, e[2] - 1) \o <<x>> \o SubSeq(h, e[2] + 1, Len(h))
+    [] e[1] \in {"glue", "rep"} -> SubSeq(h, 1, e[2] - 1) \o <<x>> \o SubSeq(h, e[2] + 1, Len(h))
 \* "SPAN" (a message spanning a key change) is admissible in no state
-Apply(h, e) == ApplyTo(h, e, IF e[1] = "ins" THEN e[3] ELSE IF e[1] = "cpy" THEN h[e[3]]
+Apply(h, e) == ApplyTo(h, e, IF e[1] \in {"ins", "rep"} THEN e[3] ELSE IF e[1] = "cpy" THEN h[e[3]]
                              ELSE IF e[1] = "glue" THEN "SPAN" ELSE "-")
 ApplyFl(fl, e) == ApplyTo(fl, e, IF e[2] > Len(fl) THEN fl[Len(fl)] ELSE fl[e[2]])
 
